@@ -1,6 +1,7 @@
 import Pendulum.Proofs.ZoneOps
 import Pendulum.Model.DTOps
-import Pendulum.Proofs.CalRT
+import Pendulum.Proofs.AddDur
+import Pendulum.Props.C01
 /-! # C03 — adding fixed-length units moves the instant by exactly that elapsed time -/
 namespace Pendulum.Props.C03
 open Pendulum Pendulum.Zone
@@ -23,5 +24,103 @@ theorem subtract_inverse' (z : Z) (h : z.WF) (u d : Int) :
     addFixed z (addFixed z (fromUtc z u) d) (-d) = fromUtc z u := by
   rw [subtract_inverse z h, toUtc_fromUtc z h]
 
+
+/-! ### the same on the DateTime-level model (`DTOps.add`), which the correspondence run ties to `DateTime.add` -/
+open Pendulum.DTOps Pendulum.AddDur
+
+/-- the requested amount, in microseconds -/
+def amount (hours minutes seconds micros : Int) : Int := totalUs 0 hours minutes seconds micros
+
+/-- the sign-aware carry normalisation of `add_duration` never changes the amount -/
+theorem carry_preserves_amount (days hours minutes seconds micros : Int) :
+    let r := normTime days hours minutes seconds micros
+    totalUs r.1 r.2.1 r.2.2.1 r.2.2.2.1 r.2.2.2.2 = totalUs days hours minutes seconds micros :=
+  normTime_total days hours minutes seconds micros
+
+/-- **aware value in a named zone**: the instant moves by exactly the requested amount, the zone is kept, and the
+    fields and offset are the table's rendering of the new instant -/
+theorem add_fixed_named (z : Z) (hz : z.WF) (w : Int) (f : Bool) (hh mi s us : Int) (r : V)
+    (h : DTOps.add ⟨.named z, w, f⟩ 0 0 0 0 hh mi s us = .ok r) :
+    let u' := (V.instant ⟨.named z, w, f⟩) + amount hh mi s us
+    r.instant = u' ∧ r.w = u' + z.off u' ∧ r.offset = z.off u' ∧ r.fold = z.foldOf u' := by
+  unfold DTOps.add at h
+  simp only [ne_eq, not_true_eq_false, or_self, if_false] at h
+  split at h
+  · cases h
+  · cases h
+  · rename_i dt hdt
+    have hd := addDuration_fixed _ _ _ _ _ _ hdt
+    split at h
+    · injection h with h; subst h
+      simp only [amount, V.instant, V.offset, ZRef.table] at *
+      rw [← hd]
+      refine ⟨?_, rfl, ?_, rfl⟩
+      · exact toUtc_fromUtc z hz dt
+      · exact roundtrip z.trs z.init dt hz
+    · cases h
+
+/-- **fixed offset**: the own clock moves by exactly the amount -/
+theorem add_fixed_fixed (off w : Int) (f : Bool) (hh mi s us : Int) (r : V)
+    (h : DTOps.add ⟨.fixed off, w, f⟩ 0 0 0 0 hh mi s us = .ok r) :
+    r.w = w + amount hh mi s us ∧ r.offset = off := by
+  unfold DTOps.add at h
+  simp only [ne_eq, not_true_eq_false, or_self, if_false] at h
+  split at h
+  · cases h
+  · cases h
+  · rename_i dt hdt
+    have hd := addDuration_fixed _ _ _ _ _ _ hdt
+    split at h
+    · injection h with h; subst h
+      simp only [amount, V.offset, ZRef.table, fixedZ, Z.woff, wallOff] at *
+      exact ⟨by omega, trivial⟩
+    · cases h
+
+/-- **naive value**: shifted on its own clock -/
+theorem add_fixed_naive (w : Int) (f : Bool) (hh mi s us : Int) (r : V)
+    (h : DTOps.add ⟨.naive, w, f⟩ 0 0 0 0 hh mi s us = .ok r) : r.w = w + amount hh mi s us := by
+  unfold DTOps.add at h
+  simp only [ne_eq, not_true_eq_false, or_self, if_false] at h
+  split at h
+  · cases h
+  · cases h
+  · rename_i dt hdt
+    have hd := addDuration_fixed _ _ _ _ _ _ hdt
+    injection h with h; subst h
+    simp only [amount, V.offset, ZRef.table] at *
+    omega
+
+/-- **subtract() with the same arguments returns to the original instant, offset and rendering** -/
+theorem subtract_returns (z : Z) (hz : z.WF) (w : Int) (f : Bool) (hh mi s us : Int) (r1 r2 : V)
+    (h1 : DTOps.add ⟨.named z, w, f⟩ 0 0 0 0 hh mi s us = .ok r1)
+    (h2 : DTOps.add r1 0 0 0 0 (-hh) (-mi) (-s) (-us) = .ok r2) :
+    let u := V.instant ⟨.named z, w, f⟩
+    r2.instant = u ∧ r2.w = u + z.off u ∧ r2.offset = z.off u := by
+  have a1 := add_fixed_named z hz w f hh mi s us r1 h1
+  simp only [] at a1
+  -- r1 is a value of the same zone
+  have hz1 : r1.z = .named z := by
+    unfold DTOps.add at h1
+    simp only [ne_eq, not_true_eq_false, or_self, if_false] at h1
+    split at h1
+    · cases h1
+    · cases h1
+    · split at h1
+      · injection h1 with h1; subst h1; rfl
+      · cases h1
+  obtain ⟨z1, w1, f1⟩ := r1
+  simp only at hz1; subst hz1
+  have a2 := add_fixed_named z hz w1 f1 (-hh) (-mi) (-s) (-us) r2 h2
+  simp only [] at a2
+  have e : amount (-hh) (-mi) (-s) (-us) = - amount hh mi s us := by
+    unfold amount totalUs; omega
+  rw [a1.1, e] at a2
+  have e2 : V.instant ⟨.named z, w, f⟩ + amount hh mi s us + -amount hh mi s us = V.instant ⟨.named z, w, f⟩ := by omega
+  rw [e2] at a2
+  exact ⟨a2.1, a2.2.1, a2.2.2.1⟩
+
+/-! non-vacuity -/
+example : (DTOps.add ⟨.named ⟨3600000000, [⟨1000000000000, 7200000000⟩]⟩, 1001800000000, false⟩ 0 0 0 0 1 0 0 0).toOption.map (·.w)
+    = some (1001800000000 + 3600000000 + 3600000000) := by decide +kernel
 
 end Pendulum.Props.C03
